@@ -420,7 +420,9 @@ def make_mp(sched, on_event=None):
         sched.yield_point('os.kill')
         if proc is None or proc._p is None or proc._p.state in ('done', 'killed'):
             raise OSError(3, 'No such process')
-        sched.emit('kill', pid=pid)
+        sched.emit('kill', pid=pid, sig=int(sig))
+        if int(sig) != 9 and proc._p.label in ('hang', 'late'):
+            return  # a process stuck in code that handles / ignores SIGTERM survives anything but SIGKILL
         sched.kill(proc._p.name)
 
     class MP(object):
